@@ -364,7 +364,7 @@ def check(ctx):
         if not thorough:
             argvs = rng.sample(argvs, min(len(argvs), 6 if label.startswith("bin:") else 8))
         add(label, tree, params, argvs, "single")
-    n_random = 2500 if thorough else 160
+    n_random = 1500 if thorough else 160
     for i in range(n_random):
         np_ = rng.randint(1, 6)
         params = [rng.choice(L.TYPES) for _ in range(np_)]
@@ -383,7 +383,7 @@ def check(ctx):
         funcs = [(f"f{k + j}", c["argvs"]) for j, c in enumerate(chunk)]
         # Spec.IR itself executes: the corpus unit, and a sample of the others
         sir = k == 0 or rng.random() < (0.4 if thorough else 0.05)
-        jobs.append({"src": src, "funcs": funcs, "spec_ir": sir, "native": thorough and rng.random() < 0.35})
+        jobs.append({"src": src, "funcs": funcs, "spec_ir": sir, "native": thorough and rng.random() < 0.25})
     ltypes, ljobs, lreqs, lsub = layout_prepare(ctx)
     all_results = L.run_units(jobs + ljobs)
     results, lresults = all_results[:len(jobs)], all_results[len(jobs):]
@@ -817,7 +817,7 @@ def layout_prepare(ctx):
     """-> (types, jobs for the front-end pool, driver requests)"""
     rng = ctx.rng
     types = list(LAYOUT_CORPUS)
-    for _ in range(1000 if ctx.thorough else 130):
+    for _ in range(800 if ctx.thorough else 130):
         types.append(L.gen_lty(rng, rng.choice([1, 2, 2, 3])))
     per = LAYOUT_PER
     jobs = []
@@ -970,7 +970,7 @@ def program_differential(ctx):
     global memory image): random UB-free functions compiled by the real front-end and run by ir_to_python are compared
     with the same functions compiled by gcc (-fsanitize=undefined) on random arguments.  Failing-input search only."""
     rng = ctx.rng
-    nprog = 140 if ctx.thorough else 6
+    nprog = 100 if ctx.thorough else 6
     per = 10
     for k in range(0, nprog, per):
         src, funcs = L.gen_programs(rng, min(per, nprog - k))
